@@ -206,10 +206,10 @@ def run(ctx):
         # rounds: a resolved state re-armed (operator<< pending / ready, assignment of a new shared_future) for a second
         # and third round, copies / awaiters / drops in every round
         run_cfg(ctx, rp, "r1", h1, ["fn", "setval"], ["val", "drop"], co=h1, copies=1, handles=2, rounds=3, ways=ways,
-                must=["ReArmAssign"] + (["ReArmShl"] if shl_fixed else []))
+                must=["ReArmAssign"] + (["ReArmShl"] if shl_fixed else []), max_paths=1000)
         if shl_fixed:
             run_cfg(ctx, rp, "r2", h2, ["fn"], ["val"], co=["h1"], bl=["h2"], copies=1, handles=1, rounds=2, ways=["shl"],
-                    must=["ReArmShl"], max_paths=700)
+                    must=["ReArmShl"], max_paths=500)
         # sanitized replays (this one and c1; no weak_ptr probe): a touch of the state after the last reference is gone
         # aborts the replayer
         run_cfg(ctx, rp_asan, "a1", h1, ["fn", "late", "retfut", "async"], ["val", "dtor"], co=h1, cb=h1, copies=1, handles=1, env=asan_env)
